@@ -6,7 +6,7 @@ From BV Require Import Base.Prelude Model.Block Model.ForkDB Model.Forkable Mode
   Model.Burst Model.Hub Model.CursorResolver Model.Joining
   Spec.Consumer Spec.Universe Check.Burst_Check Check.C07_Check Spec.C06_Spec Spec.C07_Spec Spec.C09_Spec Spec.C13_Spec
   Spec.C07_Compose_Spec Spec.C07_Shapes_Spec Spec.C07_More_Spec Spec.C07_Final_Spec Spec.C07_FinalUnfixed_Spec Spec.C07_Fuel_Spec
-  Proofs.C07_ComposeRun Proofs.C07_ComposeCheck Proofs.C07_FullRefuted Proofs.C07_Shapes Proofs.C07_FiltersNum Proofs.C07_FiltersCursor Proofs.C07_FiltersTarget Proofs.C07_Final Proofs.C07_FinalRefuted Proofs.C07_Fuel
+  Proofs.C07_ComposeRun Proofs.C07_ComposeCheck Proofs.C07_FullRefuted Proofs.C07_Shapes Proofs.C07_FiltersNum Proofs.C07_FiltersCursor Proofs.C07_FiltersTarget Proofs.C07_Final Proofs.C07_FinalMem Proofs.C07_FinalRefuted Proofs.C07_Fuel
   Properties.C07_Compose.
 Local Open Scope N_scope.
 
@@ -56,11 +56,18 @@ Theorem c07_final_only_refuted : C07_final_only_refuted.
 Proof. exact c07_final_only_refuted_proof. Qed.
 Print Assumptions c07_final_only_refuted.
 
-(* final blocks only FROM A CURSOR ahead of the hub's LIB: blocks at or below the cursor block are delivered again (the
-   filter's memory starts empty): the checker's final_fold (Some cursor block) fails - a finding, not repaired *)
+(* BEFORE the second fix (the filter's memory started empty also in cursor mode: stream_run_nomem of
+   Spec/C07_FinalUnfixed_Spec.v) a final-blocks-only stream from a cursor ahead of the hub's LIB got blocks at or below its
+   cursor again; the model now starts the memory at the cursor block (Model/Joining.start_mem) *)
 Theorem c07_final_cursor_refuted : C07_final_cursor_refuted.
 Proof. exact c07_final_cursor_refuted_proof. Qed.
 Print Assumptions c07_final_cursor_refuted.
+
+(* final blocks only, every mode / world / schedule / stop block, no hypothesis: delivered block numbers strictly
+   increase; from a cursor nothing at or below the cursor block *)
+Theorem c07_final_increasing : C07_final_increasing.
+Proof. exact c07_final_increasing_proof. Qed.
+Print Assumptions c07_final_increasing.
 
 (* the fuel: a run ends with JFuel only if a burst of the hub exceeds the explicit bound (or through the fuel of the
    hub's lookups / the cursor resolver); partial: the bound is a hypothesis, the stream's fuel does not cover every world *)
